@@ -73,6 +73,13 @@ def play_history(d, hist, dyn_req=None):
     for h in hist:
         if h[0] == 'jumpdt':
             d.jump_dt(ti=h[1]); lines.append(f'jumpdt {h[1]} 0')
+        elif h[0] == 'burst':
+            # a long earlier history: many more calls than any test makes
+            for _ in range(h[1]):
+                if dyn_req is None:
+                    d.rvs(1); lines.append('rvs 1 0')
+                else:
+                    d.rvs(ss.uids(dyn_req)); lines.append(f'rvs {int(d.slots[np.asarray(dyn_req, dtype=int)].max()) + 1 if len(dyn_req) else 0} 0')
         elif dyn_req is None:
             d.rvs(h[1]); lines.append(f'rvs {h[1]} 0')
         else:
@@ -84,6 +91,8 @@ def play_history(d, hist, dyn_req=None):
 def gen_history(rng):
     hist = []
     ti = 0
+    if rng.random() < 0.04:
+        hist.append(('jumpdt', 1)); hist.append(('burst', rng.choice([1500, 6000, 11000]))); ti = 20
     for _ in range(rng.randint(0, 3)):
         ti += rng.randint(1, 3)
         hist.append(('jumpdt', ti))
@@ -320,6 +329,11 @@ def oracle_case(c):
             sub2 = draw(req, hist2)
             if not same(sub2, sub):
                 return dict(signature=dict(sig, relation='history'), what=f'ss.{fam} ({mode}): values change when more was drawn in earlier timesteps')
+        # no earlier history at all: a fresh distribution jumped straight to the final step
+        if last_jump > 0:
+            sub5 = draw(req, hist[last_jump:])
+            if not same(sub5, sub):
+                return dict(signature=dict(sig, relation='history-fresh'), what=f'ss.{fam} ({mode}): values differ from those of a fresh distribution jumped straight to the same step (earlier history of {last_jump} operations)')
         # population size: append agents with larger slots
         big = np.concatenate([slots, slots.max() + 1 + np.arange(7)])
         if mode == 'scalar' or mode == 'callable' or mode == 'array':
@@ -370,6 +384,72 @@ def oracle_extension(cfg):
     return None
 
 
+def oracle_extension_births(cfg):
+    """ Sim level, with births by pregnancy: the same simulation with and without k extra agents that are grown into
+        the population at the start (isolated: no susceptibility, no transmissibility, male, outside every network rule
+        that matters).  A newborn's slot is drawn from a stream keyed by its MOTHER's slot, so every birth of an original
+        mother must get the same slot, and the original agents' infection histories must be unchanged. """
+    import starsim as ss
+    n = cfg['n_agents']; k = cfg['extra']; slot0 = cfg['extra_slot0']
+
+    class AddIsolated(ss.Intervention):
+        """ grows k isolated agents on its first step and keeps every non-original agent neutral """
+        def __init__(self, k, slot0, **kw):
+            super().__init__(**kw); self.k = k; self.slot0 = slot0; self.extras = None
+        def step(self):
+            ppl = self.sim.people
+            if self.extras is None:
+                if self.k:
+                    self.extras = ppl.grow(self.k, new_slots=np.arange(self.slot0, self.slot0 + self.k))
+                    ppl.age[self.extras] = 30.0
+                    ppl.female[self.extras] = False
+                else:
+                    self.extras = ss.uids()
+            if len(self.extras):
+                ex = self.extras[np.isin(self.extras, ppl.auids)]
+                for dis in self.sim.diseases():
+                    dis.rel_sus[ex] = 0.0; dis.rel_trans[ex] = 0.0
+                    if hasattr(dis, 'susceptible'): dis.susceptible[ex] = False
+                for net in self.sim.networks():
+                    if hasattr(net, 'participant'): net.participant[ex] = False
+
+    def run(k_extra):
+        c = dict(cfg)
+        sim = impl.build_sim(c, extra_interventions=[AddIsolated(k_extra, slot0, name='addiso')])
+        sim.init(); sim.run()
+        ppl = sim.people
+        parent = np.asarray(ppl.parent.raw[:ppl.uid.len_used]); slot = np.asarray(ppl.slot.raw[:ppl.uid.len_used])
+        births = {}
+        for u in range(n, len(parent)):
+            p = parent[u]
+            if p == p and 0 <= p < n:      # children of original mothers, in birth order per mother
+                births.setdefault(int(p), []).append(int(slot[u]))
+        out = dict(births=births)
+        for dis in sim.diseases():
+            for st in ('ti_infected', 'susceptible', 'infected'):
+                out[f'{dis.name}.{st}'] = np.asarray(getattr(dis, st).raw[:n]).copy()
+        return out
+    a = run(0); b = run(k)
+    if a['births'] != b['births']:
+        m = next(mm for mm in sorted(set(a['births']) | set(b['births'])) if a['births'].get(mm) != b['births'].get(mm))
+        return dict(signature=dict(oracle='extension', network='births-slots'),
+                    what=f"adding {k} isolated agents (slots {slot0}..{slot0 + k - 1}) changed the slots given to the children of original mother {m}: {a['births'].get(m)} vs {b['births'].get(m)}")
+    for key in a:
+        if key != 'births' and not same(a[key], b[key]):
+            return dict(signature=dict(oracle='extension', network='births-history'),
+                        what=f"adding {k} isolated agents changed `{key}` of original agents")
+    return None
+
+
+def gen_extension_births_cfg(rng):
+    n = rng.choice([80, 120, 160])
+    return dict(n_agents=n, rand_seed=rng.randint(0, 1000), unit='year', dt=1.0, start=2000, dur=rng.randint(12, 25),
+                extra=rng.choice([60, 150, 300]), extra_slot0=n + 1 + rng.choice([0, 5, 40]),
+                diseases=[dict(type='sis', beta=0.3, init_prev=0.2, dur_inf=5)],
+                networks=[dict(type=rng.choice(['erdosrenyi', 'mf', 'embedding']))], use_aging=True,
+                demographics=[dict(type='pregnancy', fertility_rate=rng.choice([150, 300]), burnin=False)])
+
+
 def gen_extension_cfg(rng):
     net = rng.choice(['erdosrenyi', 'erdosrenyi', 'disk'])
     cfg = dict(n_agents=rng.choice([40, 80, 120]), rand_seed=rng.randint(0, 1000), unit='year', dt=1.0, start=2000,
@@ -399,6 +479,15 @@ def search(ctx):
         ctx.count('extension_runs')
         if f:
             ctx.fail(f['signature'], f['what'], dict(kind='extension', cfg=cfg))
+    for _ in range(ctx.budget(3, 20)):
+        cfg = gen_extension_births_cfg(ctx.rng)
+        try:
+            f = oracle_extension_births(cfg)
+        except Exception as e:
+            ctx.count('extension_births_exceptions'); ctx.notes['last_extension_births_exception'] = f'{type(e).__name__}: {e}'; continue
+        ctx.count('extension_births_runs')
+        if f:
+            ctx.fail(f['signature'], f['what'], dict(kind='extension_births', cfg=cfg))
 
 
 def replay(ctx, data):
@@ -406,4 +495,6 @@ def replay(ctx, data):
         return oracle_case(data['case']) is not None
     if data.get('kind') == 'extension':
         return oracle_extension(data['cfg']) is not None
+    if data.get('kind') == 'extension_births':
+        return oracle_extension_births(data['cfg']) is not None
     return False
